@@ -364,6 +364,13 @@ def _readonly(ck, inst, thunk):
                         and not isinstance(getattr(e.obj, "attrs", {}).get(e.detail), VTens):
                     scratch.append(e)
                     continue
+                # "never change any model PARAMETER": an attribute of a network that holds no tensor (a tuple of kept inputs and
+                # a result, a counter, None) is bookkeeping of the implementation - whether what is kept there is used correctly
+                # is decided where the value is used (the two-call history rules of the property that owns the operation)
+                if e.kind == "setattr" and not getattr(e.obj, "is_parameter", False) and hasattr(e.obj, "attrs") and e.detail in e.obj.attrs \
+                        and not isinstance(e.obj.attrs.get(e.detail), (VTens, VObj)):
+                    scratch.append(e)
+                    continue
                 bad.append(e)
             unk.extend(api.unknown_effects(p, ("attr:rbm",)))
         if bad:
